@@ -27,7 +27,7 @@ def ns():
 def field(name, lo, hi):
     v = z3.Int(name)
     core.add(v >= lo, v <= hi)
-    core.register_input(name, v)
+    core.register_input(name, v, lo, hi)
     return SInt(v)
 
 
